@@ -358,7 +358,8 @@ func c20Body(c *mc.Ctx, st c20Start, depth int) {
 				req.Payload.Content = []byte(`{"request":"C"}`)
 				req.ExtendedSignedAttributes = []signature.Attribute{{Key: "io.example.c1", Critical: true, Value: "c1"}, {Key: "io.example.c2", Critical: true, Value: "c2"}}
 				if _, err := other.Sign(req); err != nil {
-					panic(mc.HarnessError{Msg: "C20: request C refused: " + err.Error()})
+					// that a valid request is signed is C08's subject; here it only means that the other object did nothing
+					c.Outcome("another-object-signs-C:refused")
 				}
 			}()
 		default:
